@@ -118,13 +118,29 @@ Drift(e) ==
                         InterpolateInt(e.strat, S(lane, LowerIdx(qi)), S(lane, HigherIdx(qi)), qi, Len(lane)))
       [] OTHER -> FALSE
 
+(* Known finding F6 (DESIGN.md section 6), stated on the observation itself: a signed 8- or 16-bit lane on which the *)
+(* documented computation overflows although the result is representable:                                          *)
+(*   Midpoint:  higher - lower > T::MAX for the two order statistics of some request;                              *)
+(*   Linear:    fraction * (higher - lower) > T::MAX, so T::from_f64 of the offset fails.                           *)
+TMaxOf(ty) == IF ty = "i8" THEN 127 ELSE 32767
+KnownF6(e) ==
+    /\ e.ev = "quantile" /\ e.ty \in {"i8", "i16"} /\ e.strat \in {"midpoint", "linear"}
+    /\ \E t \in DOMAIN e.lanes : \E j \in DOMAIN e.qs :
+          LET lane == e.lanes[t]  qi == e.qs[j]
+              lo == S(lane, LowerIdx(qi))  hi == S(lane, HigherIdx(qi))
+              pn == (Len(lane) - 1) * qi.a
+              \* fraction of the position as a multiple of 1/b; a q nudged just below an integral position has fraction ~ 1
+              fr == IF pn % qi.b = 0 /\ ~qi.int /\ qi.k < pn \div qi.b THEN qi.b ELSE pn % qi.b
+          IN IF e.strat = "midpoint" THEN hi - lo > TMaxOf(e.ty)
+             ELSE fr * (hi - lo) > (TMaxOf(e.ty) - 1) * qi.b
+
 Init == l = 1
 Next ==
     /\ l <= Len(Rec)
     /\ LET e == Rec[l] IN
          IF EventOK(e)
          THEN (IF Drift(e) THEN MarkDrift(l) ELSE TRUE)
-         ELSE MarkBad(l)
+         ELSE (IF KnownF6(e) THEN MarkKnown(l) ELSE MarkBad(l))
     /\ l' = l + 1
 Spec == Init /\ [][Next]_l
 =============================================================================
